@@ -536,3 +536,20 @@ M("c06-anyfrom-accepts-no-args", "C06", [(CLS, """        if len(chars) == 0:
 M("c06-benign-respelled-constant", "C06", [(CLS, "super().__init__('[a-zA-Z]', is_negated=False)", "super().__init__('[A-Za-z]', is_negated=False)"),
                                           (CLS, "super().__init__('[^a-zA-Z]', is_negated=True)", "super().__init__('[^\\u0041-\\u005aa-z]', is_negated=True)")], expect="silent")
 M("c06-benign-escape-more", "C06", [(CLS, "_to_escape = ('\\\\', '^', '[', ']', '-', '/', '$')", "_to_escape = ('\\\\', '^', '[', ']', '-', '/', '$', '&')")], expect="fire")  # '&' is not readable after a backslash: R_esc >= W
+
+# ---------------------------------------------------------------- C07
+M("c07-covered-range-split-again", "C07", [(CLS, "if start_1 >= start_2 and end_1 <= end_2:\n                            ranges1.pop(i)", "if start_1 == start_2 and end_1 == end_2:\n                            ranges1.pop(i)")], rule="R-SETALG")
+M("c07-subtract-minus-to-plus", "C07", [(CLS, "split_rng.append((start_1, chr(ord(start_2) - 1)))\n                        elif", "split_rng.append((start_1, chr(ord(start_2) + 1)))\n                        elif")], rule="R-SETALG")
+M("c07-reduce-ranges-strict", "C07", [(CLS, "if start_i <= start_j and ord(end_i) + 1 >= ord(start_j):", "if start_i <= start_j and ord(end_i) + 1 > ord(start_j):")], expect="silent")  # adjacent ranges stay separate: same set
+M("c07-reduce-ranges-wrong-max", "C07", [(CLS, "ranges[i] = start_i, max(end_i, end_j)", "ranges[i] = start_i, end_j")], rule="R-SETALG")
+M("c07-reduce-chars-wrong-side", "C07", [(CLS, "                    elif ord(end) == ord(chars[i]) - 1:\n                        ranges[j][1] = chars[i]", "                    elif ord(end) == ord(chars[i]) - 1:\n                        ranges[j][0] = chars[i]")], rule="R-SETALG")
+M("c07-char-steps-before-ranges", "C07", [(CLS, "        # 2.d Subtract chars2 from chars1.\n        chars1 = chars1.difference(chars2)\n", "        # 2.d Subtract chars2 from chars1.\n        chars1 = chars1.difference(set())\n")], rule="R-SETALG")
+M("c07-empty-test-removed", "C07", [(CLS, "        if len(result) == 0:\n            raise _ex.EmptyClassException(pre1, pre2)\n", "")], rule="R-SETALG")
+M("c07-or-polarity-test-removed", "C07", [(CLS, "        if  pre1.__is_negated != pre2.__is_negated:\n            raise _ex.CannotBeUnionedException(pre2, True)\n", "")], rule="R-ALG-GUARD")
+M("c07-invert-same-polarity", "C07", [(CLS, "}]\", not self.__is_negated)", "}]\", self.__is_negated)")])
+M("c07-invert-strip-again", "C07", [(CLS, "self.__verbose[len('[' + rs):-1]", "self.__verbose.lstrip('[' + rs).rstrip(']')")], rule="R-INVERT")
+M("c07-benign-negated-wraps-char", "C07", [(CLS, "        if not self.__is_negated:\n            if isinstance(pre, str) and (len(pre) == 1):", "        if True:\n            if isinstance(pre, str) and (len(pre) == 1):", -1)], expect="silent")  # still CannotBeUnionedException (polarity mix)
+M("c07-any-minus-x", "C07", [(CLS, "        if isinstance(pre1, Any):\n            return ~ pre2", "        if isinstance(pre1, Any):\n            return pre2")], rule="R-ALG-GUARD")
+M("c07-global-subtraction-allowed", "C07", [(CLS, "        if isinstance(pre1, (AnyWordChar, AnyButWordChar)) and pre1._is_global():\n            raise _ex.GlobalWordCharSubtractionException(pre1)\n", "")], rule="R-ALG-GUARD")
+M("c07-wordchar-invert-loses-global", "C07", [(CLS, "        return AnyButWordChar(is_global=self._is_global())", "        return AnyButWordChar()")], rule="R-ALG-GUARD")
+M("c07-benign-slice-removeprefix", "C07", [(CLS, "self.__verbose[len('[' + rs):-1]", "self.__verbose.removeprefix('[' + rs).removesuffix(']')")], expect="silent")
